@@ -1,7 +1,8 @@
 //! Witness search for C20.O-2 (unit source_events): watch-mode source events versus a fresh
 //! batch compile, on the REAL compiler. For every folder name in a small set (plain, dotted,
 //! a name that is a prefix of another folder) and every event kind (remove folder, rename
-//! folder, remove file, rename file, modify file, create file) a tiny project is compiled the
+//! folder, remove file, rename file, modify file, create file, a file losing its last literal,
+//! an emptied file, a literal replaced by one for another field, a late literal) a tiny project is compiled the
 //! way watch mode does at start-up, the file system is changed, the event the debounced
 //! watcher delivers is handed to update_sources, the project is recompiled incrementally, and
 //! diagnostics + artifact directory are compared with a fresh batch compile of the result.
@@ -77,7 +78,14 @@ fn scenario(root: &Path, folder: &str, kind: usize) -> Result<(), String> {
         2 => { fs::remove_file(&file).unwrap(); ("remove file", vec![(SourceEventKind::Remove(file.clone()), ChangedFileKind::JavaScriptSourceFolder)]) }
         3 => { let to = dir.join("Renamed.ts"); fs::rename(&file, &to).unwrap(); ("rename file", vec![(SourceEventKind::Rename((file.clone(), to)), ChangedFileKind::JavaScriptSourceFile)]) }
         4 => { write(&file, &component("Legacy", "world")); ("modify file", vec![(SourceEventKind::CreateOrModify(file.clone()), ChangedFileKind::JavaScriptSourceFile)]) }
-        _ => { let f = dir.join("New.ts"); write(&f, &component("New", "world")); ("create file", vec![(SourceEventKind::CreateOrModify(f), ChangedFileKind::JavaScriptSourceFile)]) }
+        5 => { let f = dir.join("New.ts"); write(&f, &component("New", "world")); ("create file", vec![(SourceEventKind::CreateOrModify(f), ChangedFileKind::JavaScriptSourceFile)]) }
+        // a tracked file loses its only literal / is emptied / gets a literal for ANOTHER field
+        6 => { write(&file, "export const nothing = 1;\n"); ("modify file: last literal removed", vec![(SourceEventKind::CreateOrModify(file.clone()), ChangedFileKind::JavaScriptSourceFile)]) }
+        7 => { write(&file, ""); ("modify file: emptied", vec![(SourceEventKind::CreateOrModify(file.clone()), ChangedFileKind::JavaScriptSourceFile)]) }
+        8 => { write(&file, &component("Legacy2", "world")); ("modify file: literal replaced by one for another field", vec![(SourceEventKind::CreateOrModify(file.clone()), ChangedFileKind::JavaScriptSourceFile)]) }
+        // a file without a literal is created, then gets one (two events in one batch)
+        _ => { let f = dir.join("Late.ts"); write(&f, "export const later = 1;\n"); let e1 = (SourceEventKind::CreateOrModify(f.clone()), ChangedFileKind::JavaScriptSourceFile);
+               write(&f, &component("Late", "world")); ("create file without a literal, then add one", vec![e1, (SourceEventKind::CreateOrModify(f), ChangedFileKind::JavaScriptSourceFile)]) }
     };
     if let Err(es) = update_sources(&mut state.db, &events) {
         return Err(format!("{what} in folder {folder:?}: update_sources failed (the watcher would stop): {:?}", es.iter().map(|e| e.to_string()).collect::<Vec<_>>()));
@@ -102,7 +110,7 @@ fn main() {
     let root = if root.is_absolute() { root } else { std::env::current_dir().unwrap().join(root) };
     let mut n = 0;
     for folder in ["pages_old", "pages.old", "api.v2", "a"] {
-        for kind in 0..6 {
+        for kind in 0..10 {
             n += 1;
             if let Err(m) = scenario(&root, folder, kind) {
                 println!("DIFFERENT: {m}");
